@@ -95,9 +95,18 @@ def finish_model_checking(chk, h):
 
 # ---------------------------------------------------------------------------
 # cases
+def _scale():
+    """development aid (mutant triage): VERIF_C18_SCALE < 1 shrinks the samples; evidence notes record it"""
+    try:
+        return float(os.environ.get("VERIF_C18_SCALE", "1"))
+    except ValueError:
+        return 1.0
+
+
 def model_cases(chk, lists):
     rng = random.Random("c18-model-%d" % chk.seed)
-    quota = [900, 300, 150] if chk.tier == "quick" else [6000, len(lists[1]), 1500]
+    quota = [700, 250, 120] if chk.tier == "quick" else [6000, len(lists[1]), 1500]
+    quota = [max(20, int(q * _scale())) for q in quota]
     cases = []
     for ls, q in zip(lists, quota):
         idx = list(range(len(ls)))
@@ -178,7 +187,7 @@ def corpus_cases(chk, pool):
     rng = random.Random("c18-corpus-%d" % chk.seed)
     groups = {k: sorted(v, key=lambda x: x["label"]) for k, v in pool.items() if len(v) >= 2}
     chk.notes["corpus_groups"] = {"%d/%s" % k: len(v) for k, v in sorted(groups.items())}
-    budget = 110 if chk.tier == "quick" else 700
+    budget = int((110 if chk.tier == "quick" else 700) * _scale())
     cases = []
     keys = sorted(groups)
     # every group gets a share; big homogeneous groups (the AOTS suite) do not crowd out the others
@@ -277,7 +286,7 @@ def drive(chk, cases):
     # import everything the workers need before forking (bytecode caching is off: each worker would recompile it)
     import fontTools.feaLib.builder, fontTools.fontBuilder, fontTools.merge, fontTools.pens.recordingPen  # noqa: F401
     import fontTools.pens.t2CharStringPen, fontTools.pens.ttGlyphPen, fontTools.ttLib.tables.otTables  # noqa: F401
-    from . import c07, c18_models, c18_project, hb, otl_project, rawsfnt  # noqa: F401
+    from . import c18_models, c18_project, hb, otl_project, rawsfnt  # noqa: F401
 
     for k, c in enumerate(cases):
         c["dir"] = os.path.join(chk.work, "case%06d" % k)
@@ -382,7 +391,7 @@ def judge_results(chk, results):
     order = sorted(range(len(traces)), key=lambda i: -len(traces[i]["m"]["names"]))
     send = [{k: v for k, v in traces[i].items() if k not in ("label", "kind") and not k.startswith("_")} for i in order]
     back = {id(s): traces[i] for s, i in zip(send, order)}
-    rej = chk.judge("Trace_C18", send, chunk=1200 if chk.tier == "quick" else 2500, multi=True, timeout=2400, workers=16)
+    rej = chk.judge("Trace_C18", send, chunk=2500, multi=True, timeout=2400, workers=16)
     for s, clauses in rej:
         t = back[id(s)]
         for clause in clauses:
@@ -420,6 +429,8 @@ def run(chk):
     mc = None if dev_no_mc else start_model_checking(chk)
     pool = corpus_pool(chk)
     cases = model_cases(chk, lists) + rich_cases(chk) + corpus_cases(chk, pool)
+    if _scale() != 1.0:
+        chk.notes["sample_scale"] = _scale()
     chk.log("driving the real merger on %d cases" % len(cases))
     results = drive(chk, cases)
     attach_cases(results, cases)
